@@ -475,6 +475,8 @@ func (pool *TxPool) SetGasPrice(price *big.Int) {
 	for _, tx := range pool.priced.Cap(price, pool.locals) {
 		pool.removeTx(tx.Hash())
 	}
+	// the removals may have demoted pending runs into the queue: re-apply the limits
+	pool.promoteExecutables(nil)
 	log.Info("Transaction pool price threshold updated", "price", price)
 }
 
@@ -638,6 +640,9 @@ func (pool *TxPool) add(tx *types.Transaction, local bool) (bool, error) {
 			underpricedTxCounter.Inc(1)
 			pool.removeTx(tx.Hash())
 		}
+		// the evictions may have demoted pending runs into the queue: re-apply
+		// the pool-wide limits
+		pool.promoteExecutables([]common.Address{})
 	}
 	// If the transaction is replacing an already pending one, do directly
 	from, _ := types.Sender(pool.signer, tx) // already validated
@@ -892,6 +897,15 @@ func (pool *TxPool) removeTx(hash common.Hash) {
 			// taken every later nonce out of the list, also when that empties it
 			for _, tx := range invalids {
 				pool.enqueueTx(tx.Hash(), tx)
+			}
+			// keep the per-account queue limit after the demotion
+			if len(invalids) > 0 && !pool.locals.contains(addr) {
+				if q := pool.queue[addr]; q != nil {
+					for _, tx := range q.Cap(int(pool.config.AccountQueue)) {
+						delete(pool.all, tx.Hash())
+						pool.priced.Removed()
+					}
+				}
 			}
 			// Update the account nonce if needed
 			if nonce := tx.Nonce(); pool.pendingState.GetNonce(addr) > nonce {
